@@ -79,7 +79,7 @@ struct Ledger {
     /// C03: cd names consumed by an accepted handshake at a node
     consumed_cd: HashSet<(u64, u64)>,
     /// C03: challenges a node issued and that were not yet consumed: (node, cd name) -> issue time
-    outstanding_chal: HashMap<(u64, u64), u64>,
+    outstanding_chal: HashMap<(u64, u64), (u64, u64, SocketAddr)>, // -> (armed at, challenged id, address)
     /// C04: the handler's own requests seen on the wire: (node, rid) -> (sent_at, to, answered)
     internal: HashMap<(u64, u64), (u64, u64, bool)>,
 }
@@ -111,6 +111,7 @@ pub struct HandlerRunner {
     delivering_handshake: bool,
     /// claimed source id (index) of the datagram being delivered in this step, if any
     cur_src: Option<u64>,
+    wire_dst_hint: Option<SocketAddr>,
     /// whether the datagram being delivered carries a ciphertext that verifies under a known key
     cur_authentic: bool,
     ttl_ms: u64,
@@ -144,6 +145,7 @@ impl Default for HandlerRunner {
             last_sig_cd: None,
             delivering_handshake: false,
             cur_src: None,
+            wire_dst_hint: None,
             cur_authentic: true,
             ttl_ms: 86_400_000,
             old_keys_mark: 0,
@@ -600,6 +602,7 @@ impl HandlerRunner {
             let k = self.wire.len();
             // describe as the intended recipient decodes it (names are drawn here, in emission order)
             let term = self.describe(&bytes, dst_idx, idx, true).unwrap_or_else(|| "?".into());
+            self.wire_dst_hint = Some(dst);
             self.mon_emitted(idx, dst_idx, &bytes, out);
             let a = self.addr_idx(dst);
             sends.push(format!("snd>{}@{}>{}", dst_idx, a, term));
@@ -636,7 +639,10 @@ impl HandlerRunner {
                     out.push(format!("!MON C19 id-nonce-repeated node={}", from));
                 }
                 if let Some(cd) = self.names.cd.get(&aad).cloned() {
-                    self.ledger.outstanding_chal.entry((from, cd)).or_insert(self.now_ms);
+                    let now = self.now_ms;
+                    if let Some(d) = self.wire_dst_hint {
+                        self.ledger.outstanding_chal.entry((from, cd)).or_insert((now, dst_idx, d));
+                    }
                 }
             }
             _ => {
@@ -700,9 +706,12 @@ impl HandlerRunner {
         };
         match self.ledger.outstanding_chal.remove(&(at, cd)) {
             None => out.push(format!("!MON C03 handshake-accepted-for-consumed-or-foreign-challenge node={} cd={}", at, cd)),
-            Some(_issued_at) => {
-                // (the age of the challenge is not checked here: a handshake with a bad signature
-                // legitimately re-arms the challenge timer; expiry is covered by the model comparison)
+            Some((armed_at, _, _)) => {
+                // a handshake with a bad signature legitimately re-arms the challenge timer: `armed_at`
+                // is refreshed whenever any handshake for that node address is delivered (see `hdel`)
+                if self.now_ms > armed_at + self.timeout_ms + 2 {
+                    out.push(format!("!MON C03 handshake-accepted-after-challenge-expiry node={} age_ms={}", at, self.now_ms - armed_at));
+                }
             }
         }
     }
@@ -1015,6 +1024,18 @@ impl HandlerRunner {
                 let term = self.describe(&d.bytes, tidx, d.from_idx, false);
                 self.delivering_handshake = term.as_ref().map(|t| t.starts_with("H~")).unwrap_or(false);
                 self.cur_authentic = term.as_ref().map(|t| t.contains("E[")).unwrap_or(false);
+                if self.delivering_handshake {
+                    let claimed: u64 = term.as_ref().and_then(|t| t.split('~').nth(1).and_then(|x| x.parse().ok())).unwrap_or(0);
+                    let now = self.now_ms;
+                    let timeout = self.timeout_ms;
+                    for ((n, _), v) in self.ledger.outstanding_chal.iter_mut() {
+                        // still alive (not expired by the ledger's clock): any handshake for that node
+                        // address may re-arm it
+                        if *n == tidx && v.1 == claimed && v.2 == src && now <= v.0 + timeout {
+                            v.0 = now;
+                        }
+                    }
+                }
                 self.cur_src = term.as_ref().and_then(|t| {
                     let f: Vec<&str> = t.split('~').collect();
                     if f[0] == "M" || f[0] == "H" { f.get(1).and_then(|x| x.parse().ok()) } else { None }
@@ -1184,12 +1205,17 @@ impl HandlerRunner {
                 // `r`: the latest datagram emitted by DST (an in-flight request of DST, usually)
                 let k = if args.get(1) == Some(&"r") {
                     self.wire.iter().rposition(|d| d.from_idx == get(0)).unwrap_or(usize::MAX)
+                } else if args.get(1) == Some(&"h") {
+                    // `h`: the latest *handshake* emitted by DST
+                    self.wire.iter().rposition(|d| d.from_idx == get(0) && packet_decode(&d.dst_id, ProtocolIdentity::default(), &d.bytes)
+                        .map(|(q, _)| matches!(q.kind, PacketKind::Handshake { .. })).unwrap_or(false)).unwrap_or(usize::MAX)
                 } else { get(1) as usize };
                 let Some(d) = self.wire.get(k).cloned() else { return false };
                 let Ok((p, _)) = packet_decode(&d.dst_id, ProtocolIdentity::default(), &d.bytes) else { return false };
                 let idn: [u8; 16] = r.bytes(16).try_into().unwrap();
                 let (bytes, _cd) = hf::craft_whoareyou(&denr.node_id(), p.nonce, idn, get(2));
-                self.wire.push(Datagram { from_idx: ATTACKER, src: node_addr(ATTACKER), dst: node_addr(get(0)), dst_id: denr.node_id(), bytes });
+                // by default it appears to come from where the echoed datagram went
+                self.wire.push(Datagram { from_idx: ATTACKER, src: d.dst, dst: node_addr(get(0)), dst_id: denr.node_id(), bytes });
                 true
             }
             // hcraft handshake CLAIMED_SRC SIGNER DST CHAL_WIRE_K REC BODY
@@ -1298,7 +1324,13 @@ pub fn gen_case(rng: &mut Rng, tier: &str, profile: &str, stats: &mut Stats) -> 
         rid += 1;
         ops.push("hdel next".into());
         ops.push(format!("hwru {} next {}", y, if rng.chance(1, 2) { "none" } else { "known" }));
-        for _ in 0..3 { ops.push("hdel next".into()); }
+        ops.push("hdel next".into());
+        if rng.chance(1, 3) {
+            // a second WHOAREYOU for the same request, echoing the handshake packet's nonce
+            ops.push(format!("hcraft whoareyou {} h 0", x));
+            ops.push("hdel last".into());
+        }
+        for _ in 0..2 { ops.push("hdel next".into()); }
         let enr_answer = match rng.below(5) { 0 => "nodesother", 1 => "nodesbad", _ => "auto" };
         ops.push(format!("hresp {} next auto", y)); ops.push("hdel next".into());
         ops.push(format!("hresp {} next {}", y, enr_answer)); ops.push("hdel next".into());
@@ -1381,9 +1413,10 @@ pub fn gen_case(rng: &mut Rng, tier: &str, profile: &str, stats: &mut Stats) -> 
                     3..=4 => {
                         // a WHOAREYOU echoing the nonce of the victim's latest datagram, from the
                         // right or a foreign address; sometimes twice
-                        ops.push(format!("hcraft whoareyou {} r {}", y, rng.below(3)));
-                        if rng.chance(1, 2) { ops.push(format!("hdel last {}", x)); } else { ops.push("hdel last 9".into()); }
-                        if rng.chance(1, 3) { ops.push(format!("hcraft whoareyou {} r 0", y)); ops.push(format!("hdel last {}", x)); }
+                        let echo = if rng.chance(1, 2) { "h" } else { "r" };
+                        ops.push(format!("hcraft whoareyou {} {} {}", y, echo, rng.below(3)));
+                        match rng.below(4) { 0 => ops.push("hdel last 9".into()), 1 => ops.push(format!("hdel last {}", x)), _ => ops.push("hdel last".into()) }
+                        if rng.chance(1, 3) { ops.push(format!("hcraft whoareyou {} {} 0", y, echo)); ops.push("hdel last".into()); }
                         emitted += 2;
                     }
                     5..=6 => {
